@@ -1,6 +1,7 @@
 package main
 
 import (
+	"regexp"
 	"bytes"
 	"context"
 	"fmt"
@@ -79,6 +80,15 @@ func runSolver(ctx context.Context, sp solverSpec, file string, timeoutS int) (s
 func solve(query string, dir string, name string, timeoutS int, agree bool, prefer string) solveResult {
 	file := filepath.Join(dir, sanitizeFile(name)+".smt2")
 	os.WriteFile(file, []byte(query), 0o644)
+	// the pruned variant (see pruneQuery) joins the race of stage 2: only its `unsat` answers count
+	altFile := ""
+	if pq, ok := pruneQuery(query); ok {
+		altFile = filepath.Join(dir, sanitizeFile(name)+"-pruned.smt2")
+		os.WriteFile(altFile, []byte(pq), 0o644)
+		if os.Getenv("GOVC_KEEP") == "" {
+			defer os.Remove(altFile)
+		}
+	}
 	res := solveResult{status: "unknown", all: map[string]string{}}
 	finish := func() solveResult {
 		if res.status == "unsat" || res.status == "sat" {
@@ -107,7 +117,7 @@ func solve(query string, dir string, name string, timeoutS int, agree bool, pref
 		st, out, be string
 		t           float64
 	}
-	ch := make(chan r, len(solvers))
+	ch := make(chan r, 2*len(solvers))
 	var wg sync.WaitGroup
 	for _, sp := range solvers {
 		wg.Add(1)
@@ -116,6 +126,16 @@ func solve(query string, dir string, name string, timeoutS int, agree bool, pref
 			st, out, t := runSolver(ctx, sp, file, timeoutS)
 			ch <- r{st, out, sp.name, t}
 		}(sp)
+		if altFile != "" && sp.name != "z3" {
+			wg.Add(1)
+			go func(sp solverSpec) {
+				defer wg.Done()
+				st, out, t := runSolver(ctx, sp, altFile, timeoutS)
+				if st == "unsat" {
+					ch <- r{st, out, sp.name + "(pruned)", t}
+				}
+			}(sp)
+		}
 	}
 	go func() { wg.Wait(); close(ch) }()
 	var satRes *r
@@ -167,6 +187,80 @@ func solveCover(query, dir, name string) solveResult {
 		res.status, res.backend, res.time, res.output = st, sp.name, t, out
 	}
 	return res
+}
+
+var reSpecName = regexp.MustCompile(`\|spec\.([A-Za-z0-9_]+)\|`)
+var reFuelDef = regexp.MustCompile(`\(\|spec\.([A-Za-z0-9_]+)\| \(fuelS \|fuel!ly\|\)`)
+
+// pruneQuery drops the definitional (fuel) axioms of recursive spec functions that the goal does not mention, directly
+// or through the definition of one it mentions. Removing assumptions keeps every `unsat` answer valid; it only helps
+// the solver when an unrelated recursive definition (e.g. the output-length function of a replace loop) floods the
+// instantiation of a goal about something else (the content of a slice). Returns false when nothing would be dropped.
+func pruneQuery(q string) (string, bool) {
+	lines := strings.Split(q, "\n")
+	goal := ""
+	for i := len(lines) - 1; i >= 0; i-- {
+		if strings.HasPrefix(lines[i], "(assert (not ") {
+			goal = lines[i]
+			break
+		}
+	}
+	if goal == "" {
+		return q, false
+	}
+	defs := map[string][]int{}
+	for i, l := range lines {
+		if strings.HasPrefix(l, "(assert (forall ((|fuel!ly| Fuel)") {
+			if m := reFuelDef.FindStringSubmatch(l); m != nil {
+				defs[m[1]] = append(defs[m[1]], i)
+			}
+		}
+	}
+	if len(defs) == 0 {
+		return q, false
+	}
+	keep := map[string]bool{}
+	var work []string
+	for _, m := range reSpecName.FindAllStringSubmatch(goal, -1) {
+		if !keep[m[1]] {
+			keep[m[1]] = true
+			work = append(work, m[1])
+		}
+	}
+	for len(work) > 0 {
+		n := work[len(work)-1]
+		work = work[:len(work)-1]
+		for _, i := range defs[n] {
+			for _, m := range reSpecName.FindAllStringSubmatch(lines[i], -1) {
+				if !keep[m[1]] {
+					keep[m[1]] = true
+					work = append(work, m[1])
+				}
+			}
+		}
+	}
+	drop := map[int]bool{}
+	for n, idx := range defs {
+		if !keep[n] {
+			for _, i := range idx {
+				drop[i] = true
+			}
+		}
+	}
+	if len(drop) == 0 {
+		return q, false
+	}
+	var sb strings.Builder
+	for i, l := range lines {
+		if drop[i] {
+			continue
+		}
+		sb.WriteString(l)
+		if i < len(lines)-1 {
+			sb.WriteByte('\n')
+		}
+	}
+	return sb.String(), true
 }
 
 func sanitizeFile(s string) string {
